@@ -39,7 +39,7 @@ PROPS = {
         ],
     },
     "C10": {
-        "units": ["hooks", "setenv", "config", "storage", "schedule", "issue", "evloop"],
+        "units": ["hooks", "setenv", "config", "storage", "schedule", "issue", "evloop", "renew"],
         "design_ref": "DESIGN.md section 5 C10",
         "technique": "Verus function contracts over a ghost sequence of spawned processes; recursive spec for group expansion; ghost event trace for the file-write bracket",
         "text": "Deductive proof that hooks::call spawns exactly the hooks whose type list contains the event type, in declaration order, "
@@ -67,11 +67,15 @@ PROPS = {
                 "(which key signs, what is stored and saved afterwards, re-registration when the CA has dropped the account), and that every per-endpoint setter changes only its own field of its own endpoint; "
                 "that what save writes reads back, field by field, as the very account saved (name, every endpoint record, contacts, current and superseded keys with dates and "
                 "algorithms, external binding), that fetch returns that account or an error - never 'no account' - whenever an account file exists, and that load keeps the stored "
-                "endpoint records and keys (the stored current key stays current or becomes the newest superseded key) and builds a fresh account only when no file exists.",
+                "endpoint records and keys (the stored current key stays current or becomes the newest superseded key) and builds a fresh account only when no file exists; "
+                "that the stored fingerprints are SHA-256 over the key's public PEM, over the contacts and over the binding (hash_key / hash_contacts / hash_external_account verified), "
+                "that a fingerprint is stored only after the CA has taken the change, that the newAccount / update / keyChange payloads carry the account's contacts, "
+                "the agreement to the terms, the binding, the new key's JWK and the account URL (Account::new, AccountUpdate::new, AccountKeyRollover::new verified), "
+                "and that the account the daemon synchronizes is built from the configured name, contacts, key type, signature algorithm and binding.",
         "assumptions": [
             "T: the CA's side of newAccount / account update / keyChange (prelude/acct_shims.rs: it records the signer of a newAccount, honours an update only when signed by the key it holds, "
             "replaces contacts or key as the payload says) and the readings of the payload structures (structs/account.rs) are stated, not proved; encode_jwk / encode_kid appear as relations (proved in unit jws)",
-            "T: fingerprints (SHA-256 of key PEM / contacts / binding) are uninterpreted; HashMap<String, AccountEndpoint> is a map from endpoint names (get / get_mut / entry shims)",
+            "T: SHA-256 is an uninterpreted function (fingerprints are equal iff their inputs are, up to collisions); HashMap<String, AccountEndpoint> is a map from endpoint names (get / get_mut / entry shims)",
             "T: bincode is a deterministic self-delimiting encoding (decode(encode(x)) = x; no proper beginning of an encoding decodes - the statement behind 'every truncation point'); "
             "the text forms of algorithms, key types and contact types and the DER form of a key pair read back as the value written (Display/FromStr of acme_common, OpenSSL PKCS#8); "
             "`X.iter().map(F).collect()` chains are the element-wise helpers map_vec / try_map_vec / map_strmap (T-ITER), the closure F keeping its real body under an inserted ensures clause; "
@@ -109,21 +113,23 @@ PROPS = {
         ],
     },
     "C15": {
-        "units": ["keys", "texts", "chalproof"],
+        "units": ["keys", "texts", "chalproof", "jws"],
         "design_ref": "DESIGN.md section 5 C15",
         "technique": "Verus function contracts: JWK member maps and signature byte layout against RFC 7518 tables pinned in spec functions",
         "text": "Deductive proof that the RSA and EC JWKs have exactly the RFC 7517/7518 members (thumbprint form: the RFC 7638 member set), "
                 "with minimal-length e/n and coordinates left-padded to the curve size, that an ECDSA signature is R||S with each half "
                 "left-padded to the curve size (for every length of R and S), that the key type recorded for a loaded or generated key is the "
-                "type of the OpenSSL key, and that signing insists on the one algorithm that goes with the key type.",
+                "type of the OpenSSL key, and that signing insists on the one algorithm that goes with the key type; that RSA signatures are PKCS#1 v1.5 over SHA-256, "
+                "EdDSA signatures one-shot signatures without digest, that HashFunction::{hash, hmac, native_digest} use the digest they are named after, "
+                "and that a key written as DER or PEM (private_key_to_der / _to_pem, public_key_to_pem) reads back through from_der / from_pem as the same key with the same type.",
         "assumptions": [
             "T: OpenSSL as modelled in prelude/ac_shims.rs (BN_bn2bin minimal, BN_bn2binpad fixed width, r,s below the group order, coordinates are field elements)",
             "T: json!({..}) builds an object with exactly the listed members; serde_json's map sorts keys (member order of the thumbprint input)",
-            "X: the Ed25519/Ed448 `x` (cut out of a PEM string by offset); verification under an independent implementation; PEM/DER round trips",
+            "X: the Ed25519/Ed448 `x` (cut out of a PEM string by offset); verification under an independent implementation; that OpenSSL's PKCS#8 / SPKI serialisations read back as the key written is the stated model of prelude/ac_shims.rs, the functions that call them are verified against it",
         ],
     },
     "C16": {
-        "units": ["x509", "tacd", "tacdmain", "texts"],
+        "units": ["x509", "tacd", "tacdmain", "texts", "idna"],
         "design_ref": "DESIGN.md section 5 C16",
         "technique": "Verus function contracts over a ghost view of the OpenSSL certificate builder; the ALPN callback's contract is a precondition of its registration",
         "text": "Deductive proof that the certificate tacd serves is X.509 v3, self-issued and self-signed by the generated key, valid from now for "
@@ -215,7 +221,10 @@ PROPS = {
         "technique": "Verus function contracts: saturating-time arithmetic against spec functions; request shim requires the scheduled wait",
         "text": "Deductive proof that schedule_renewal answers 'now' when a file is missing or an identifier is not covered, and otherwise "
                 "max(0, notAfter - renew_delay) minus a jitter below random_early_renew (never later, never negative, no overflow for any "
-                "OpenSSL time difference), and that the request is issued right after sleeping exactly that time.",
+                "OpenSSL time difference), and that the request is issued right after sleeping exactly that time; that the certificate examined is the "
+                "one parsed from the stored file (X509Certificate::from_pem keeps the OpenSSL object it parsed) and that subject_alt_names returns every "
+                "dNSName and iPAddress entry of it as text and nothing else; that the values entering the schedule are the configured ones "
+                "(renew_delay / random_early_renew resolved certificate, endpoint, global, default 30d / 1d).",
         "assumptions": [
             "T: ASN1_TIME_diff returns days*86400+secs = notAfter-now with |secs| < 86400; SAN extraction by OpenSSL (cert_san); rand::gen_range stays in its range",
             "T: HashSet<String> operations as stated in prelude/titer3.rs",
@@ -230,8 +239,12 @@ PROPS = {
                 "the request succeeded (with the prefixed error text otherwise), swallows a post-operation hook error, sleeps at least a second "
                 "after a failure before handing the task back, and that the scheduling-retry loop stays in bounds and terminates; "
                 "that every request is given up after a bounded number of transmissions and every poll after a bounded number of requests, and that the time the HTTP layer "
-                "spends waiting between them is bounded by the retry / poll constants whatever the server answers.",
+                "spends waiting between them is bounded by the retry / poll constants whatever the server answers; "
+                "that request_certificate never takes a lock it already holds and takes the account lock before the endpoint lock (ghost set of held locks, "
+                "released where Rust drops each guard), so that no certificate's task can block itself or another for ever on those locks, "
+                "and that the newOrder loop runs at most twice (a second time only after re-registering a dropped account).",
         "assumptions": [
+            "T: tokio::sync::RwLock read()/write() block exactly while a conflicting guard is alive, and Rust drops guards as the reference says (temporaries at the end of the enclosing statement, a match scrutinee's temporaries at the end of the match, locals at the end of their block, `drop(g)`); rule T-DROP places the releases accordingly and gives up (undecided) on shapes it does not know",
             "A-CLOCK: the process does not outlive a 64-bit nanosecond clock (bounds the retry counter; used for termination of the retry loop)",
             "T: request_certificate / schedule_renewal / call_post_operation_hooks are seen through recording stubs here; their own contracts are proved in their units",
             "X: liveness under faults inside reqwest/tokio/OpenSSL; hooks have no timeout, the rate limiter's own waits and the time a single HTTP exchange takes are not bounded here ('bounded time' is claimed for the deliberate waits of the HTTP layer only); non-interference between certificates (concurrency, C12)",
